@@ -134,6 +134,8 @@ pub struct Seen {
     pub body: Vec<u8>,
     pub origin: String,
     pub version: String,
+    /// the Host header the handler saw (HTTP/1 only; on HTTP/2 the authority travels as a pseudo-header)
+    pub host: Option<String>,
 }
 
 #[derive(Default, Debug)]
@@ -197,6 +199,7 @@ pub async fn handler(obs: Obs, origin: &'static str, req: http::Request<hyperdri
             body: data.clone(),
             origin: origin.to_string(),
             version: format!("{:?}", parts.version),
+            host: parts.headers.get("host").and_then(|v| v.to_str().ok()).map(|s| s.to_string()),
         },
     );
     let mut first = format!("resp{id}@{origin}:").into_bytes();
